@@ -226,6 +226,18 @@ class Hook:
         """Called just BEFORE mutation `kind` on absolute `path`."""
         k = len(self.trace)
         rel = self.rel(path)
+        if self.folder is not None:
+            # the names really used, as they are (neighbours histories): marker, archive, temporary archive
+            real = path[len(self.root):]
+            names = self.extra.setdefault("names", {})
+            if kind == "W" and os.path.basename(path) == ".completed":
+                names["marker"] = real
+            elif kind == "ZTW":
+                names["ziptmp"] = real
+            elif kind == "ZW" or (kind == "MV" and src is not None and src.endswith(".zip.tmp")):
+                names["zip"] = real
+            elif kind == "R" and real.endswith(".zip"):
+                names["zip"] = real
         if self.crash is not None:
             variant = self.crash["variant"]
             if self.ck is None:
@@ -440,6 +452,7 @@ def child(case, outdir, run_index, crash, report_path):
             rep["msg"] = str(e)[:200]
         rep["trace"] = hook.trace
         rep["bad_rename"] = hook.extra.get("bad_rename")
+        rep["names"] = hook.extra.get("names")
         rep["evals"] = analysis.evals
         rep["truncated"] = None
         with open(report_path, "w") as f:
@@ -711,6 +724,7 @@ def run_history(case, idx):
             "bad_rename": rep.get("bad_rename"),
             "truncated": [role_of(rep["truncated"][0]), rep["truncated"][1]] if rep.get("truncated") else None,
             "evals": rep.get("evals"),
+            "names": rep.get("names"),
             "result": res,
             "result_tag": tag_of_ll(float.fromhex(res["summary_ll"])) if res and res.get("summary_ll") else None,
             "samples_tag": (tag_of_ll(max(float.fromhex(x) for x in res["samples_ll"]))
